@@ -30,6 +30,9 @@ CLAIMED = {
             "arbitrary array (checkpoint abstraction) + no-abstraction twin against direct propagation", "4/C08",
             "The clause 'refining the internal step changes U only within the truncation bound' is numerical and "
             "not decided."),
+    "C09": ("SMT (z3; exp/tan uninterpreted) over symbolic execution of the real CorrelationFunction constructor and "
+            "addition code for every grouping of mixed analytic/value-defined components", "4/C09",
+            "FFT-based component types and the measured-vs-declared reorganisation energy are outside the claim."),
     "C13": ("SMT (z3 nonlinear real arithmetic with exact algebraic roots of unity) over symbolic execution of the "
             "real axis-conjugation and DFunction Fourier-transform code", "4/C13", ""),
     "C14": ("SMT (z3; IEEE exp under/overflow as axioms on an uninterpreted Exp; division-by-zero side "
@@ -49,5 +52,5 @@ CLAIMED = {
 }
 _NYB = "check not built yet in this round (design in DESIGN.md section 4); not claimed until its harness is sound"
 NOT_APPLICABLE = {p: _NYB for p in
-                  ["C%02d" % i for i in range(2, 20) if i not in (2, 3, 4, 5, 6, 7, 8, 13, 14, 16, 17, 19)]}
+                  ["C%02d" % i for i in range(2, 20) if i not in (2, 3, 4, 5, 6, 7, 8, 9, 13, 14, 16, 17, 19)]}
 SOURCE_COMMITS = []
